@@ -65,6 +65,8 @@ struct St {
     actors: [Option<Actor>; NH],
     outs: [Option<(JobOut, Vec<hooks::Spawned>)>; NH],
     clock: (Option<Instant>, Duration),
+    /// park right after the pool mutex is taken as well (a parked holder makes `try_lock` fail)
+    critical: bool,
     quit: bool,
 }
 
@@ -97,6 +99,7 @@ impl Helpers {
                 actors: [None; NH],
                 outs: [None, None, None],
                 clock: (None, Duration::ZERO),
+                critical: false,
                 quit: false,
             }),
             cv: Condvar::new(),
@@ -138,17 +141,25 @@ impl Helpers {
                 st.state[i] = 1;
             }
             st.clock = hooks::clock_state();
+            st.critical = CRITICAL.with(|c| c.get());
             st.turn = MAIN;
         }
         loop {
-            let enabled: Vec<usize> = {
+            let (enabled, unfinished, held): (Vec<usize>, usize, bool) = {
                 let st = self.sh.m.lock().unwrap();
-                (0..n).filter(|&i| st.state[i] != 3).collect()
+                // an operation parked because the mutex is busy cannot go on while the holder is parked
+                let held = (0..n).any(|j| st.state[j] == 2 && st.site[j] == "pool mutex held");
+                ((0..n).filter(|&i| st.state[i] != 3 && !(held && st.state[i] == 2 && st.site[i] == "pool mutex busy")).collect(), (0..n).filter(|&i| st.state[i] != 3).count(), held)
             };
             if enabled.is_empty() {
+                if unfinished > 0 {
+                    return Err("every unfinished operation waits for the pool mutex: deadlock".into());
+                }
                 break;
             }
-            on_point();
+            if !held {
+                on_point(); // (reads the pool tables: not while a parked operation holds the mutex)
+            }
             let k = trace.decisions.len();
             let choice = if k < prefix.len() { prefix[k] as usize } else { 0 };
             if choice >= enabled.len() {
@@ -229,6 +240,7 @@ fn helper_main(i: usize, sh: Arc<Shared>, wh: world::WorldHandle, clock: Arc<std
                 st = sh.cv.wait(st).unwrap_or_else(|e| e.into_inner());
             }
             st.state[i] = 4;
+            hooks::set_yield_in_critical_sections(st.critical);
             (st.jobs[i].take().unwrap(), st.actors[i], st.clock)
         };
         hooks::set_clock_state((clock.0, Duration::ZERO));
@@ -254,6 +266,8 @@ fn panic_text(p: Box<dyn std::any::Any + Send>) -> String {
 
 thread_local! {
     static HELPERS: RefCell<Option<Helpers>> = const { RefCell::new(None) };
+    /// set by the explorer for configurations that also interleave inside critical sections
+    static CRITICAL: std::cell::Cell<bool> = const { std::cell::Cell::new(false) };
 }
 
 fn with_helpers<R>(f: impl FnOnce(&Helpers) -> R) -> R {
@@ -558,6 +572,7 @@ fn sound_under_concurrency(v: &Viol) -> bool {
             | ("C03", "stranded")
             | ("C03", "probe-blocked")
             | ("C03", "connection-in-limbo")
+            | ("C14", "background-connection-lost")
             | (_, "panic")
     )
 }
@@ -698,6 +713,7 @@ fn explore_state(cfg: &SimConfig, hist: &[Ev], seq_fps: &HashSet<Fp>, props: &[&
         error: None,
         sample: None,
     };
+    CRITICAL.with(|c| c.set(cfg.name.contains("held-yields")));
     let issued_now = Sim::replay(cfg, hist).reqs.iter().filter(|r| !r.is_probe).count();
     let ops: Vec<(Ev, Actor)> = {
         let sim = Sim::replay(cfg, hist);
@@ -940,6 +956,7 @@ pub fn explore(cfg: &SimConfig, props: &[&'static str], max_wall_s: f64) -> Conc
 
 /// Replay one recorded concurrent witness.
 pub fn replay(cfg: &SimConfig, hist: &[Ev], group: &[Ev], schedule: &[u8]) -> Result<(Vec<Viol>, String), String> {
+    CRITICAL.with(|c| c.set(cfg.name.contains("held-yields")));
     let mut sim = Sim::replay(cfg, hist);
     let pre = checks::capture_pre(&sim);
     let mut max_idle_seen = 0usize;
